@@ -672,6 +672,7 @@ func (c *CqlServerConnection) processIncomingFrame(incoming *frame.Frame) {
 	c.channelsLock.RLock()
 	select {
 	case c.incoming <- incoming:
+		verifPoint("sconn.request", int64(incoming.Header.StreamId), 0)
 		log.Debug().Msgf("%v: incoming frame successfully delivered: %v", c, incoming)
 	default:
 		log.Error().Msgf("%v: incoming frames queue is full, discarding frame: %v", c, incoming)
@@ -736,6 +737,7 @@ func (c *CqlServerConnection) Send(f *frame.Frame) error {
 	defer c.channelsLock.RUnlock()
 	select {
 	case c.outgoing <- newFrameResponse(f):
+		verifPoint("sconn.enqueue", int64(f.Header.StreamId), 0)
 		log.Debug().Msgf("%v: outgoing frame successfully enqueued: %v", c, f)
 		return nil
 	default:
@@ -753,6 +755,7 @@ func (c *CqlServerConnection) SendRaw(rawResponse []byte) error {
 	defer c.channelsLock.RUnlock()
 	select {
 	case c.outgoing <- newRawResponse(rawResponse):
+		verifPoint("sconn.enqueue", -1, 0)
 		log.Debug().Msgf("%v: outgoing frame successfully enqueued: %v", c, rawResponse)
 		return nil
 	default:
@@ -805,8 +808,10 @@ func (c *CqlServerConnection) Close() (err error) {
 		c.outgoing = nil
 		close(incoming)
 		close(outgoing)
+		verifPoint("sconn.chans.closed", 0, 0)
 		c.channelsLock.Unlock()
 		c.waitGroup.Wait()
+		verifPoint("sconn.close.done", 0, 0)
 		c.onClose(c)
 		if err != nil {
 			err = fmt.Errorf("%v: error closing: %w", c, err)
